@@ -49,6 +49,27 @@ CHECKS = {
             "with CPython 3.11/3.12/3.13 on generated programs. Exploration.",
             "co_positions()/co_lines()/dis._parse_exception_table are ground truth",
             "DESIGN.md §4 C17"),
+    "C08": ("exhaustive enumeration (65536 integers, every CPython registry row, every xdis table row and release "
+            "name, every installed interpreter) plus Hypothesis 4-byte/int/release draws",
+            "Magic tables agree with CPython's own registry and with the 9 installed interpreters; "
+            "int2magic/magic2int inverse on all 16-bit values (exhaustive).",
+            "registry comment block of importlib/_bootstrap_external.py is ground truth; non-final release levels "
+            "are not exercised through sysinfo2magic",
+            "DESIGN.md §4 C08"),
+    "C09": ("exhaustive enumeration of all opcode tables x 256 opcodes x 7 categories: differential against the "
+            "opcode module of 9 CPythons, intrinsic invariants for all tables, corpus-validity decoding, Hypothesis "
+            "probes of the make_std_api facade",
+            "Every table with a matching interpreter equals that interpreter's opcode module (exhaustive); tables "
+            "without one are internally consistent and decode all historical corpus files structurally.",
+            "opcode module of the matching CPython is ground truth; no reference exists for 1.0-2.6, 3.0-3.5, PyPy",
+            "DESIGN.md §4 C09"),
+    "C15": ("enumeration of (opcode, operand) per version 3.6-3.13 (0..300 quick, 0..65535 thorough, EXTENDED_ARG "
+            "boundaries) + Hypothesis draws; differential against dis.stack_effect",
+            "xstack_effect and make_std_api().stack_effect equal dis.stack_effect on every enumerated pair "
+            "CPython accepts; exhaustive over 0..65535 in the thorough tier.",
+            "dis.stack_effect of the matching CPython is ground truth; operands >= 2^30 excluded (C int overflow "
+            "in the reference)",
+            "DESIGN.md §4 C15"),
 }
 
 NOT_YET = {}
